@@ -2,6 +2,7 @@ package main
 
 import (
 	"fmt"
+	"math"
 	"runtime"
 	"strconv"
 
@@ -220,7 +221,9 @@ func c13(r *mon.Run) {
 	// every ordered pair of corpus entries on one Parser: whatever the first parse leaves behind (a flag set
 	// by its last token, a buffer, a position) meets every kind of second expression
 	pairs := mon.Workload{Name: "parser-pairs", N: len(corpus) * len(corpus), Batch: 5000,
-		Describe: func(i int) string { return fmt.Sprintf("%q then %q on one Parser", corpus[i/len(corpus)], corpus[i%len(corpus)]) },
+		Describe: func(i int) string {
+			return fmt.Sprintf("%q then %q on one Parser", corpus[i/len(corpus)], corpus[i%len(corpus)])
+		},
 		Do: func(i int, t *mon.Tally) {
 			x, y := corpus[i/len(corpus)], corpus[i%len(corpus)]
 			p := jmespath.NewParser()
@@ -569,7 +572,9 @@ func c13(r *mon.Run) {
 	// answer and the one-shot answer are both judged (runBoth) - whatever only Compile does must not show.
 	rwTrees, rwDocs := c13Rewritable()
 	rw := mon.Workload{Name: "compiled-versus-one-shot-on-rewritable-shapes", N: len(rwTrees) * len(rwDocs), Batch: 500,
-		Describe: func(i int) string { return gen.Spell(rwTrees[i/len(rwDocs)]) + " on " + ref.Canon(rwDocs[i%len(rwDocs)]) },
+		Describe: func(i int) string {
+			return gen.Spell(rwTrees[i/len(rwDocs)]) + " on " + ref.Canon(rwDocs[i%len(rwDocs)])
+		},
 		Do: func(i int, t *mon.Tally) {
 			tree, doc := rwTrees[i/len(rwDocs)], rwDocs[i%len(rwDocs)]
 			cx := &caseCtx{r, t, "compiled-versus-one-shot-on-rewritable-shapes", i}
@@ -585,7 +590,53 @@ func c13(r *mon.Run) {
 				}
 			}
 		}}
-	r.Exec(hist, ph, pairs, lph, sh, lsh, tsu, rw, fel)
+	// one compiled expression over documents that compare equal under == and still differ (0 and -0, 1 and 1.0 spelled
+	// differently, equal strings held in different storage, equal lists and objects built afresh): whatever a compiled expression
+	// remembers by VALUE of an operand must not carry the first one's rendering or identity over to the second
+	twinExprs := []string{"to_string(@)", "to_string(n)", "[to_string(n), to_string(m)]", "@", "n", "to_string(a)", "a[*].to_string(@)", "join(',', a[*].to_string(@))", "to_string({k: n})", "sort(a)", "sort(a) | to_string(@)", "max(a)", "min(a)",
+		"to_string(abs(n))", "to_string(ceil(n))", "to_string(floor(n))", "to_string(sum(a))", "to_string(avg(a))", "to_string(to_number(s))", "to_number(s)", "to_string(not_null(z, n))", "to_string(n) == to_string(m)", "{k: to_string(n), j: n}",
+		"a[?to_string(@) == '-0']", "map(&to_string(@), a)", "sort_by(o, &n)[*].to_string(n)", "max_by(o, &n).t", "min_by(o, &n).t", "to_string(o[0].n)", "reverse(a)", "to_string(reverse(a))", "to_string(a[-1])", "to_string(merge({k: n}, {j: m}))", "to_string([n, m][0])", "type(n)", "n == m", "to_string(@.n)"}
+	nz := math.Copysign(0, -1)
+	twinDocs := func() []interface{} {
+		mk := func(n, m float64, s string, a ...float64) interface{} {
+			arr := make([]interface{}, len(a))
+			for k, v := range a {
+				arr[k] = v
+			}
+			return map[string]interface{}{"n": n, "m": m, "s": s, "z": nil, "a": arr, "o": []interface{}{map[string]interface{}{"n": n, "t": "first"}, map[string]interface{}{"n": m, "t": "second"}}}
+		}
+		return []interface{}{float64(0), nz, float64(0), nz, nz, mk(0, nz, "0", 0, nz, 1), mk(nz, 0, "-0", nz, 0, 1), mk(0, 0, "0.0", 0, 0), mk(nz, nz, "-0.0", nz, nz), mk(0, nz, "0e0", 1, nz, 0), mk(nz, 0, "-0e0", 1, 0, nz), mk(1, 1, "1.0", 1, 1), mk(1, 1, "1", 1, 1), mk(1, 1, "1e0", 1), float64(1), nz, float64(0)}
+	}
+	twin := mon.Workload{Name: "documents-that-compare-equal-but-differ", N: len(twinExprs) * 2, Batch: 10,
+		Describe: func(i int) string { return twinExprs[i/2] },
+		Do: func(i int, t *mon.Tally) {
+			expr := twinExprs[i/2]
+			jp, co := apiCompile(expr)
+			if co.Panicked || co.Err != nil {
+				r.Inconclusive("C13 workload expression does not compile: " + expr)
+				return
+			}
+			ds := twinDocs()
+			if i%2 == 1 { // the same documents in the opposite order
+				for a, b := 0, len(ds)-1; a < b; a, b = a+1, b-1 {
+					ds[a], ds[b] = ds[b], ds[a]
+				}
+			}
+			for k, d := range ds {
+				t.Eval()
+				got := canonOut(apiJP(jp, mon.DeepCopy(d)))
+				fresh := canonOut(apiCompiledSearch(expr, mon.DeepCopy(d)))
+				one := canonOut(apiSearch(expr, mon.DeepCopy(d)))
+				if got != fresh || got != one {
+					r.Violate(&mon.Violation{Workload: "documents-that-compare-equal-but-differ", Index: i, API: "(*JMESPath).Search", Expr: expr, Doc: d,
+						Expected: fmt.Sprintf("call %d on this compiled expression answers like a freshly compiled one (%s) and like the one-shot Search (%s)", k+1, clipStr(fresh, 300), clipStr(one, 300)), Observed: clipStr(got, 300),
+						Class: "compiled expression answers for a document it saw earlier (equal under ==, not the same)"})
+					return
+				}
+			}
+			t.Nontrivial("twin:" + strconv.Itoa(i))
+		}}
+	r.Exec(hist, ph, pairs, lph, sh, lsh, tsu, rw, fel, twin)
 }
 
 // c13Rewritable: see the workload compiled-versus-one-shot-on-rewritable-shapes.
@@ -647,6 +698,14 @@ func c13Rewritable() ([]*gen.Expr, []interface{}) {
 			gen.Func("type", gen.Func("to_array", ch())), gen.Func("to_string", gen.Func("not_null", lit("null"), ch())), gen.MultiList(gen.Func("type", ch()), gen.Func("type", lit("1"))), gen.MultiHash(keyA("t"), []*gen.Expr{gen.Func("type", cln())}),
 		)
 	}
+	// negations of comparisons (the complement comparator is NOT the negation when an operand is no number), identity steps
+	for _, op := range []string{"==", "!=", "<", "<=", ">", ">="} {
+		trees = append(trees, gen.Not(gen.Paren(gen.Cmp(op, gen.Field("n"), gen.LitJSON("2")))), gen.Not(gen.Paren(gen.Cmp(op, gen.Field("s"), gen.Field("n")))), gen.Not(gen.Paren(gen.Cmp(op, gen.LitJSON("1"), gen.Field("z")))),
+			at(x(), gen.StFilter(gen.Not(gen.Paren(gen.Cmp(op, gen.Field("k"), gen.LitJSON("7"))))), gen.StField("v")), gen.Not(gen.Not(gen.Paren(gen.Cmp(op, gen.Field("n"), gen.Field("s"))))),
+			gen.Cmp("==", gen.Paren(gen.Cmp(op, gen.Field("n"), gen.LitJSON("2"))), gen.LitJSON("false")), gen.Or(gen.Cmp(op, gen.Field("s"), gen.LitJSON("2")), gen.Raw("dflt")), gen.And(gen.Not(gen.Paren(gen.Cmp(op, gen.Field("n"), gen.Field("n")))), gen.Raw("t")))
+	}
+	trees = append(trees, gen.Pipe(gen.Current(), gen.Field("n")), at(gen.Current(), gen.StField("n")), gen.Pipe(gen.Field("n"), gen.Current()), gen.Pipe(gen.Current(), gen.Current()), at(gen.Current(), gen.StField("o"), gen.StField("p")), gen.Pipe(gen.Pipe(gen.Current(), x()), at(nil, gen.StIndex(0))),
+		gen.Paren(gen.Paren(x())), gen.Or(x(), x()), gen.And(gen.Field("z"), gen.Field("z")), gen.Or(gen.Field("z"), gen.LitJSON("null")), gen.Not(gen.Not(gen.Not(x()))), gen.Cmp("==", gen.Not(nn()), gen.LitJSON("false")))
 	row := func(kv interface{}, v string) interface{} { return map[string]interface{}{"k": kv, "v": v} }
 	mk := func(xs []interface{}, nn []interface{}, ss []interface{}, n interface{}, s interface{}, o interface{}) interface{} {
 		return map[string]interface{}{"x": xs, "nn": nn, "ss": ss, "n": n, "s": s, "o": o, "z": nil}
